@@ -19,7 +19,7 @@ import (
 
 // C06 — Compile is total: no panic, crash or hang; exactly one of (expr, error).
 
-const ruleC06 = "rapid: valid expression text from all fragments (incl. unconstrained ones) or token soup, then 0-3 byte-level mutations (delete / duplicate a range, flip a byte, insert a token from a dictionary of XPath tokens, quotes, brackets, NUL, invalid UTF-8, multi-byte names) x namespace configuration (Compile; CompileWithNS with nil, empty, binding and non-binding maps). mixed: alternations of two constructs (predicate/function, predicate/arithmetic, parenthesis/union, sequence/predicate/function ...) at depths 2..198, whose compile cost must stay polynomial; deep: every recursive construct of the grammar ('(', 'a[', 'f(', 'a/(', 'a/(b,', '-', 'a/', 'a//', '[1]', '1+', 'a|', 'or', '=', alternations of two) nested to depth 10^2..10^5 under an 8 MB maximum stack (quick) or ..3*10^6 under the default 1 GB stack (thorough), closed and unclosed, each journalled before it runs so that a dying process is attributed. thorough also: native go fuzzing of the same oracle. Oracle: Compile/CompileWithNS return exactly one of (non-nil expr, non-nil error); no panic escapes; the process survives; MustCompile returns a usable non-nil expression; a returned expression answers String() with the input; every call returns within a generous wall-clock margin (re-tried once in isolation). Non-trivial: the input was mutated, or is soup, or is a depth case; distinct by input bytes + namespace configuration."
+const ruleC06 = "rapid: valid expression text from all fragments (incl. unconstrained ones) or token soup, then 0-3 mutations, byte-level (delete / duplicate a range, flip a byte, insert a token from a dictionary) or token-level (delete / duplicate / swap lexical words of XPath tokens, quotes, brackets, NUL, invalid UTF-8, multi-byte names) x namespace configuration (Compile; CompileWithNS with nil, empty, binding and non-binding maps). mixed: alternations of two constructs (predicate/function, predicate/arithmetic, parenthesis/union, sequence/predicate/function ...) at depths 2..198, whose compile cost must stay polynomial; deep: every recursive construct of the grammar ('(', 'a[', 'f(', 'a/(', 'a/(b,', '-', 'a/', 'a//', '[1]', '1+', 'a|', 'or', '=', alternations of two) nested to depth 10^2..10^5 under an 8 MB maximum stack (quick) or ..3*10^6 under the default 1 GB stack (thorough), closed and unclosed, each journalled before it runs so that a dying process is attributed. thorough also: native go fuzzing of the same oracle. Oracle: Compile/CompileWithNS return exactly one of (non-nil expr, non-nil error); no panic escapes; the process survives; MustCompile returns a usable non-nil expression; a returned expression answers String() with the input; every call returns within a generous wall-clock margin (re-tried once in isolation). Non-trivial: the input was mutated, or is soup, or is a depth case; distinct by input bytes + namespace configuration."
 
 var (
 	uC06Rapid = harness.NewUnit("C06", "rapid-mutated-inputs", ruleC06)
@@ -193,6 +193,42 @@ func Soup(rt *rapid.T, n int) string {
 	return strings.Join(toks, rapid.SampledFrom([]string{"", " "}).Draw(rt, "soupsep"))
 }
 
+// lexWords splits text into lexical words: runs of name characters, quoted
+// literals, runs of blanks, and single other characters.
+func lexWords(s string) []string {
+	var out []string
+	isName := func(c byte) bool {
+		return c == '_' || c == '-' || c == '.' || (c >= '0' && c <= '9') || (c >= 'a' && c <= 'z') || (c >= 'A' && c <= 'Z') || c >= 0x80
+	}
+	for i := 0; i < len(s); {
+		j := i + 1
+		switch c := s[i]; {
+		case isName(c):
+			for j < len(s) && isName(s[j]) {
+				j++
+			}
+		case c == '\'' || c == '"':
+			for j < len(s) && s[j] != c {
+				j++
+			}
+			if j < len(s) {
+				j++
+			}
+		case c == ' ' || c == '\t' || c == '\n':
+			for j < len(s) && (s[j] == ' ' || s[j] == '\t' || s[j] == '\n') {
+				j++
+			}
+		case c == '/' || c == ':' || c == '<' || c == '>' || c == '!':
+			if j < len(s) && (s[j] == c || s[j] == '=') {
+				j++
+			}
+		}
+		out = append(out, s[i:j])
+		i = j
+	}
+	return out
+}
+
 func mutate(rt *rapid.T, s string) (string, int) {
 	n := rapid.IntRange(0, 3).Draw(rt, "nmut")
 	b := []byte(s)
@@ -201,7 +237,22 @@ func mutate(rt *rapid.T, s string) (string, int) {
 		if len(b) > 0 {
 			pos = rapid.IntRange(0, len(b)).Draw(rt, "mutpos")
 		}
-		switch rapid.IntRange(0, 3).Draw(rt, "mutkind") {
+		switch rapid.IntRange(0, 6).Draw(rt, "mutkind") {
+		case 4, 5, 6: // token-level: delete / duplicate / swap lexical words
+			words := lexWords(string(b))
+			if len(words) < 2 {
+				break
+			}
+			w := rapid.IntRange(0, len(words)-2).Draw(rt, "word")
+			switch rapid.IntRange(0, 2).Draw(rt, "wordop") {
+			case 0:
+				words = append(words[:w], words[w+1:]...)
+			case 1:
+				words = append(words[:w+1], words[w:]...)
+			default:
+				words[w], words[w+1] = words[w+1], words[w]
+			}
+			b = []byte(strings.Join(words, ""))
 		case 0: // delete a range
 			if len(b) > 0 {
 				end := pos + rapid.IntRange(1, 4).Draw(rt, "dellen")
